@@ -34,7 +34,9 @@ ASSUMPTIONS = [
 ]
 V1N = ["device", "attestation", "ui", "signer"]
 V2N = ["quote", "attestation", "quoting_enclave", "platform_ca", "a", "b", "c", "sgx_root",
-       "d", "e", "f", "g", "h"]
+       "d", "e", "f", "g", "h",
+       # names are free text: outside ASCII, and a name cut in the middle of a surrogate pair
+       "caf\u00e9", "n\ud83d"]
 HEX = ["aa", "bb", "cc", "04" + "11" * 64, "3006020101020101", "00" * 432, "00" * 384,
        "ff" + "04" + "22" * 64,
        # hex-dump spelling (blanks between the bytes), sound and damaged near the end
